@@ -9,6 +9,9 @@ struct nv_state
 {
   uint64_t ver;       /* ghost: identity of the point m_x; fresh at every write of m_x */
   uint64_t eval_ver;  /* ghost: `ver` for which (m_fx, m_gx) were obtained from one vgrad(m_x, m_gx) evaluation */
+  uint64_t fx_ver;    /* ghost: `ver` for which m_fx is the value of the function at m_x (eval_ver == ver implies it; the
+                         update_if_better(x, fx) solvers keep a stale sub-gradient, so only the value is consistent) */
+  _Bool    xfin;      /* ghost: every coefficient of the point m_x is finite */
   uint64_t origin;    /* ghost: `ver` of the state whose point x0 this point was computed from as x0 + t*d */
   double   t;         /* ghost: that step t */
   _Bool    valid;     /* abstraction of valid(): value, point, gradient, constraint values all finite */
